@@ -276,7 +276,7 @@ func gen(t *rapid.T) Case {
 }
 
 func TestPropOperations(t *testing.T) {
-	kit.Run(t, kit.Spec[Case]{ID: "C02", Name: "operations", Rule: rule, Assumptions: assumptions, Gen: gen, Check: check, Quick: 12000, Thorough: 100000,
+	kit.Run(t, kit.Spec[Case]{ID: "C02", Name: "operations", Rule: rule, Assumptions: assumptions, Gen: gen, Check: check, Quick: 20000, Thorough: 150000,
 		Sample: func(c Case) any {
 			return map[string]any{"src": c.Src, "psrc": c.PSrc, "permissive": c.Permissive, "ops": c.Ops, "cert_len": len(c.Cert), "parent_len": len(c.Parent), "hosts": c.Hosts}
 		}})
